@@ -115,7 +115,10 @@ def stepLine (ws : List String) : String :=
     match s.toNat?, f.toNat? with
     | some s, some f => toString (isReliable s f)
     | _, _ => "bad-op"
-  | ["loadcache", k, m, _, tp] =>
+  | "loadcache" :: k :: m :: _ :: rest =>
+    -- `loadcache k m <hexfile> <tp>` or `loadcache k m gen <description> <tp>`: the model sees only the parser's verdict
+    let tp := rest.getLast?.getD "err"
+    if rest.length = 0 ∨ rest.length > 2 then "bad-op" else
     match k.toNat?, m.toNat? with
     | some k, some m =>
       if tp == "err" then showRes toString (loadCache k m none) else
